@@ -102,7 +102,14 @@ func JSONExpr(r *Rng, depth int, wellTyped bool) string {
 	add := func(name, v string) {
 		parts = append(parts, jws(r)+jkey(r, name)+jws(r)+":"+jws(r)+v)
 	}
-	sub := func() string { return JSONExpr(r, depth-1, wellTyped) }
+	sub := func() string {
+		if r.Chance(1, 15) {
+			// a node that is malformed on its own (no pattern, no boundary, operand of the wrong kind)
+			return Pick(r, []string{`{"left":"a","operator":"RANGE"}`, `{"left":"a","operator":"LIKE"}`, `{"left":"a","operator":"IN","right":5}`,
+				`{"left":5,"operator":"LIKE","right":"b*"}`, `{"left":"a","operator":"RANGE","right":{"min":null,"max":null}}`, `{"operator":"NOT"}`})
+		}
+		return JSONExpr(r, depth-1, wellTyped)
+	}
 	scalarList := func() string {
 		n := 1 + r.Intn(4)
 		xs := make([]string, n)
